@@ -46,11 +46,23 @@ def d1(cx: Cx, ob: Ob) -> None:
     want = {"prefix", "identifier"}
     se = cx.summary(eq, ob.id)
     me, other = ("param", eq.params[0].name), ("param", eq.params[1].name)
+    saw_main = False
     for t, ctx in se.returns():
         ob.site(f"{eq.where} {eq.qualname}", show(t)[:90])
+        # isinstance(other, Reference) may be a conjunct of the result or a guard on the way to it
+        guard_inst = [g for g in ctx.guards if g.kind == "guard" and op(g.a) == "call" and callee_name(g.a) == "isinstance" and g.a[2][0] == other]
+        if any(g.b is False for g in guard_inst):
+            if not is_const(t, False) and op(t) != "name":
+                ob.violate(eq.qualname, eq.where, f"__eq__ returns `{show(t)[:30]}` for objects that are not References", detail="non-reference")
+            continue
+        saw_main = True
         parts = t[1] if op(t) == "and" else (t,)
         pairs = set()
-        inst = False
+        inst = any(g.b is True and "Reference" in show(g.a[2][1]) for g in guard_inst)
+        for g in guard_inst:
+            if g.b is True and "Reference" not in show(g.a[2][1]):
+                ob.violate(eq.qualname, eq.where, f"__eq__ tests isinstance against `{show(g.a[2][1])}`", detail="isinstance")
+                inst = True
         for p in parts:
             if op(p) == "call" and callee_name(p) == "isinstance" and p[2][0] == other:
                 inst = "Reference" in show(p[2][1])
@@ -63,7 +75,7 @@ def d1(cx: Cx, ob: Ob) -> None:
                 if fa != fb:
                     ob.violate(eq.qualname, eq.where, f"__eq__ compares `{show(a)[:30]}` with `{show(b)[:30]}`", detail="mismatched-compare")
                 pairs |= fa
-            elif op(p) == "cmp" and p[1] in ("is",) :
+            elif op(p) == "cmp" and p[1] in ("is",):
                 pass
             else:
                 ob.undecide(f"__eq__ conjunct `{show(p)[:50]}` not recognised")
@@ -75,6 +87,8 @@ def d1(cx: Cx, ob: Ob) -> None:
                 ob.violate(eq.qualname, eq.where, f"__eq__ also compares {sorted(extra)}: a name must never matter", detail="eq-extra:" + "+".join(sorted(extra)))
             if missing:
                 ob.violate(eq.qualname, eq.where, f"__eq__ does not compare {sorted(missing)}", detail="eq-missing:" + "+".join(sorted(missing)))
+    if not saw_main:
+        ob.undecide("__eq__: no comparing return found")
     sh = cx.summary(hs, ob.id)
     hme = ("param", hs.params[0].name)
     for t, ctx in sh.returns():
@@ -173,8 +187,12 @@ def d3(cx: Cx, ob: Ob) -> None:
                 ob.violate(m.qualname, m.where, f"{ci.name}.from_curie does not validate through cls.model_validate", detail="no-validate")
                 continue
             payload = t[2][0] if t[2] else None
-            dd = payload[4] if op(payload) == "new" else payload
-            items = {k[1]: v for k, v in dd[1] if k is not None and is_const(k)} if op(dd) == "dict" else {}
+            from ..rules import dict_items
+
+            items = dict_items(s, payload)
+            if items is None:
+                ob.undecide(f"{ci.name}.from_curie: payload `{show(payload)[:50]}` not recognised")
+                continue
             if items.get("prefix") != head or items.get("identifier") != tail:
                 ob.violate(m.qualname, m.where, f"{ci.name}.from_curie passes prefix/identifier as `{show(items.get('prefix'))[:30] if items.get('prefix') else '?'}` / `{show(items.get('identifier'))[:30] if items.get('identifier') else '?'}`: not (head, tail) of the split", detail="roles")
             if m.param("name") is not None and items.get("name") != ("param", "name"):
@@ -314,8 +332,12 @@ def d6(cx: Cx, ob: Ob) -> None:
         for t, ctx in s.returns():
             ob.site(f"{m.where} {m.qualname}", show(t)[:80])
             payload = t[2][0] if op(t) == "call" and t[2] else None
-            dd = payload[4] if op(payload) == "new" else payload
-            items = {k[1]: v for k, v in dd[1] if k is not None and is_const(k)} if op(dd) == "dict" else {}
+            from ..rules import dict_items
+
+            items = dict_items(s, payload)
+            if items is None:
+                ob.undecide(f"{cname}.from_reference: payload `{show(payload)[:50]}` not recognised")
+                continue
             if items.get("prefix") != ("attr", r, "prefix") or items.get("identifier") != ("attr", r, "identifier"):
                 ob.violate(m.qualname, m.where, f"{cname}.from_reference does not copy (prefix, identifier)", detail="roles")
             nm = items.get("name")
